@@ -57,7 +57,7 @@ C07_CASES = [
     ('array view assigned to an element behind a pointer to an array view',
      'fn foo(a: &[]i32, s: &[]i32)\n{\n\ta[0] = s;\n}\n', 'reject', 'an array view behind a pointer assigned to an element: rejected with an error, not by a panic'),
 ] + [
-    (what, 'fn foo(p: &i32)\n{\n}\n\nfn bar(p: &&i32)\n{\n}\n\nfn parr(a: &[]i32)\n{\n}\n\nfn main()\n{\n\tvar x: i32 = 1;\n\tvar p: &i32 = &x;\n\tvar q: &&i32 = &&p;\n'
+    (what, 'fn foo(p: &i32)\n{\n}\n\nfn bar(p: &&i32)\n{\n}\n\nfn parr(a: &[]i32)\n{\n}\n\nfn val(v: i32)\n{\n}\n\nfn byte(b: u8)\n{\n}\n\nfn main()\n{\n\tvar x: i32 = 1;\n\tvar p: &i32 = &x;\n\tvar q: &&i32 = &&p;\n\tvar c: char8 = \'a\';\n'
            '\tvar a: [3]i32 = [1, 2, 3];\n\t%s\n}\n' % stmt, exp, why)
     for what, stmt, exp, why in [
         ('two excess addresses on an argument', 'foo(&&&x);', 'reject', 'an argument &&&x for a parameter of type &i32'),
@@ -71,6 +71,10 @@ C07_CASES = [
         ('a pointer-to-pointer variable as an argument', 'bar(&&q);', 'accept', 'the pointer q: &&i32 itself for a parameter of type &&i32'),
         ('address of an array as an argument', 'parr(&a);', 'accept', 'the address of a [3]i32 for a parameter of type &[]i32'),
         ('missing address on a pointer-to-pointer argument', 'bar(&p);', 'reject:513', 'the pointer p: &i32 for a parameter of type &&i32'),
+        ('address of a pointer for a pointer parameter', 'foo(&&p);', 'reject:512', 'the address of the pointer p: &i32 (a &&i32) for a parameter of type &i32'),
+        ('a pointer for a value parameter', 'val(&x);', 'reject:512', 'the address of an i32 for a parameter of type i32'),
+        ('a pointer to a char8 for a u8 parameter', 'byte(&c);', 'reject:512', 'the address of a char8 for a parameter of type u8'),
+        ('a pointer variable for a value parameter', 'val(&p);', 'reject', 'the pointer p: &i32 for a parameter of type i32'),
     ]
 ] + [
     (what, 'struct S\n{\n\tarr: [4]i32,\n\tp: &i32,\n}\n\nfn foo(sl: []i32, s: S)\n{\n\tvar t: S = s;\n\t%s\n}\n' % stmt, exp, why)
